@@ -18,9 +18,11 @@ Offsets == PosOffsets \cup { 0 - o : o \in NegOffsets }
 SC == 128
 \* parameter table: kind "i" | "f" | "l" (log float) | "T"; lo/hi scaled by SC
 PInfo(p) == CASE p = "/i" -> [ty |-> "i", lo |-> 0,         hi |-> 127 * SC, log |-> FALSE]
+              [] p = "/c" -> [ty |-> "c", lo |-> 0,         hi |-> 127 * SC, log |-> FALSE]      \* an rParam port (char, 0..127): its messages carry the type 'c'
               [] p = "/n" -> [ty |-> "i", lo |-> 0 - 64 * SC, hi |-> 63 * SC,  log |-> FALSE]
               [] p = "/f" -> [ty |-> "f", lo |-> 0 - 320,    hi |-> 1312,     log |-> FALSE]      \* -2.5 .. 10.25
               [] p = "/l" -> [ty |-> "f", lo |-> 0,          hi |-> 0,        log |-> TRUE]       \* 0.01 .. 100, log scale
+              [] p = "/m" -> [ty |-> "i", lo |-> SC,         hi |-> 1000 * SC, log |-> TRUE]      \* an INTEGER parameter on a log scale, 1 .. 1000
               [] p = "/t" -> [ty |-> "T", lo |-> 0,          hi |-> SC,       log |-> FALSE]
 Slots == 1..NSlots
 Subs == 1..PerSlot
@@ -53,8 +55,8 @@ Emit(u, value8) ==
   LET i == PInfo(u.p)
       raw == (value8 * (u.b - u.a)) \div 8 + u.a IN          \* exact: (b - a) is a multiple of 8 / SC-units by construction
   IF i.ty = "T" THEN [p |-> u.p, ty |-> (IF raw * 2 > SC THEN "T" ELSE "F"), v |-> (IF raw * 2 > SC THEN 1 ELSE 0)]
-  ELSE IF i.ty = "i" THEN [p |-> u.p, ty |-> "i", v |-> RoundHalfAway(Clamp(raw, i.lo, i.hi)) * SC]
-  ELSE IF i.log THEN [p |-> u.p, ty |-> "f", v |-> 0]              \* log scale: value not specified here (range and monotonicity are judged on the trace)
+  ELSE IF i.log THEN [p |-> u.p, ty |-> i.ty, v |-> 0]              \* log scale: value not specified here (range and monotonicity are judged on the trace)
+  ELSE IF i.ty \in {"i", "c"} THEN [p |-> u.p, ty |-> i.ty, v |-> RoundHalfAway(Clamp(raw, i.lo, i.hi)) * SC]
   ELSE [p |-> u.p, ty |-> "f", v |-> Clamp(raw, i.lo, i.hi)]
 SetSlotOut(s, value8) == LET js == SelectSeq([j \in Subs |-> j], LAMBDA j : sub[s][j].used) IN
                          [k \in 1..Len(js) |-> Emit(sub[s][js[k]], value8)]
